@@ -160,23 +160,44 @@ def act(a):
     return "Clear"
 
 
+def actN(a):
+    code = {"spawn": 0, "step": 1, "kill": 2, "raise": 3}.get(a[0], 4)
+    p = a[1] if len(a) > 1 else 0
+    k = a[2] if len(a) > 2 else 0
+    return "(%d, %d, %d)%%uint63" % (code, p, k)
+
+
+def unint(x):
+    """a primitive-int literal as printed by Coq (the shared parser keeps it as a symbol)"""
+    if isinstance(x, tuple) and x and x[0] == "sym":
+        return int(x[1].split("%")[0])
+    return int(x)
+
+
+def cN(x):
+    return "%d%%uint63" % x
+
+
 def model_obs(ctx, jobs):
     """jobs: list of (len, g0, trace) -> list of model observations (final, temps, pcs) or None"""
     out = []
-    B = 200
+    B = 300
+    # one coqc run (start-up dominates), one Eval per <= 300 traces
+    body = "From Coq Require Import Uint63.\n"
     for k in range(0, len(jobs), B):
-        terms = ["crun %s %s %s" % (cnat(L), copt(g0, cnat), clist([act(a) for a in tr]))
+        terms = ["crunI %s %s %s" % (cN(L), copt(g0, cN), clist([actN(a) for a in tr]))
                  for (L, g0, tr) in jobs[k:k + B]]
-        body = "Definition cases := %s.\nEval vm_compute in cases.\n" % clist(terms)
-        res = ctx.coq_eval(body, requires=("model.Cache",), tag="cache")
-        for r in res[0]:
+        body += "Definition cases%d := %s.\nEval vm_compute in cases%d.\n" % (k, clist(terms), k)
+    res = ctx.coq_eval(body, requires=("model.Cache",), tag="cache") if jobs else []
+    for block in res:
+        for r in block:
             if r is None:
                 out.append(None)
                 continue
             fin, temps, pcs = r[1]
-            fin = None if fin is None else (int(fin[1][0]), bool(fin[1][1]))
-            temps = [None if t is None else int(t[1]) for t in temps]
-            out.append((fin, temps, [int(x) for x in pcs]))
+            fin = None if fin is None else (unint(fin[1][0]), bool(fin[1][1]))
+            temps = [None if t is None else unint(t[1]) for t in temps]
+            out.append((fin, temps, [unint(x) for x in pcs]))
     return out
 
 
@@ -279,7 +300,18 @@ def scen_kill(ctx, sb, jobs):
     try:
         for n in ctx.n([10], [10, 20, 30]):
             tab, ser = reference(sb, n)
-            for k in offsets(ctx, len(ser), 260):
+            # a fork of the interpreter costs ~0.3 s here: every offset only for n=10 in the thorough tier,
+            # otherwise the offsets around the row boundaries, both ends and a random sample
+            L = len(ser)
+            if ctx.tier == "thorough" and n == 10:
+                ks = list(range(L))
+            else:
+                row = ser.index(b"\n") + 1
+                ks = {0, 1, 2, row - 1, row, row + 1, 2 * row - 1, 2 * row, L - row - 1, L - row, L - row + 1,
+                      L - 2, L - 1}
+                ks |= set(ctx.rng.sample(range(L), ctx.n(20, 60)))
+                ks = sorted(k for k in ks if 0 <= k < L)
+            for k in ks:
                 d = sb.fresh_dir()
                 sb.final(n)
                 st = killer.crash(d, n, k)
